@@ -237,7 +237,7 @@ func (u *Unit) edgeCond(fr *Frame, p, b *ssa.BasicBlock) Term {
 	r := fr.reach[p]
 	if n := len(p.Instrs); n > 0 {
 		if iff, ok := p.Instrs[n-1].(*ssa.If); ok {
-			c := fr.vals[iff.Cond].T
+			c := u.value(fr, iff.Cond).T // (a constant condition is not in fr.vals)
 			if p.Succs[0] == b && p.Succs[1] == b {
 				return r
 			}
@@ -342,6 +342,20 @@ func (u *Unit) mergeStates(ins []edgeIn) *State {
 		}
 		if res.epoch != e.st.epoch {
 			res.epoch = u.sym("ep")
+		}
+		// heaps havocked by name on either side before anything looked at them
+		for h, tag := range e.st.pending {
+			if res.pending == nil {
+				res.pending = map[string]string{}
+			}
+			if rt, ok := res.pending[h]; !ok || rt != tag {
+				res.pending[h] = u.sym("hv")
+			}
+		}
+		for h := range res.pending {
+			if _, ok := e.st.pending[h]; !ok {
+				res.pending[h] = u.sym("hv")
+			}
 		}
 		if res.alloc.S != e.st.alloc.S {
 			res.alloc = u.def(ite(e.cond, e.st.alloc, res.alloc))
@@ -506,6 +520,7 @@ func (u *Unit) enterLoop(fr *Frame, li *loopInfo, st *State, reach Term) (*State
 	} else if len(heaps) > 0 {
 		u.havocHeaps(st, heaps, "loop")
 	}
+	u.havocLoopCalls(fr, li, st, reach)
 	// 3. auto invariants for monotone counters
 	u.autoInvariants(fr, li, pre, st, reach)
 	// 4. assume user invariants
